@@ -14,7 +14,9 @@ cases = []
 for _ in range(n):
     d = evalgen.gen_doc(chk.rng)
     g.set_doc(d)
-    if os.environ.get("MUT"):
+    if os.environ.get("DER"):
+        e = g.derived_query()
+    elif os.environ.get("MUT"):
         e = g.update()
         if chk.rng.random() < 0.3:
             e = ("pipe", e, g.update())
